@@ -65,9 +65,18 @@ class DiamondError(AppError, LookupError):
     pass
 
 
+def _hostile(exc):
+    """Mark an exception raised on purpose by one of the case's own callbacks (not a harness bug if it gets out)."""
+    try:
+        exc.hostile = True
+    except Exception:
+        pass
+    return exc
+
+
 class BadStrError(Exception):
     def __str__(self):
-        raise RuntimeError("str() of this exception raises")
+        raise _hostile(RuntimeError("str() of this exception raises"))
 
 
 class AppBase(BaseException):
@@ -94,7 +103,7 @@ class BadStrBaseError(Exception):
     """str() of it is interrupted by something that is not an Exception."""
 
     def __str__(self):
-        raise AppBase("interrupted while formatting")
+        raise _hostile(AppBase("interrupted while formatting"))
 
 
 class NoModuleError(Exception):
@@ -130,7 +139,7 @@ class SilentBadReprError(Exception):
 
         caller = _sys._getframe(1).f_code.co_filename
         if os.sep + "eliot" + os.sep in caller and not caller.startswith(os.path.dirname(os.path.abspath(__file__))):
-            raise RuntimeError("repr() of this exception raises")
+            raise _hostile(RuntimeError("repr() of this exception raises"))
         return "SilentBadReprError()"
 
 
@@ -1222,12 +1231,12 @@ def _extractor_function(beh):
         # written as a generator of pairs that fails part way through
         def lazy(e):
             yield "x", 1
-            raise make_exc(beh["raise"], 0)
+            raise _hostile(make_exc(beh["raise"], 0))
 
         return lazy
 
     def raising(e):
-        raise make_exc(beh["raise"], 0)
+        raise _hostile(make_exc(beh["raise"], 0))
 
     return raising
 
